@@ -168,3 +168,71 @@ pub fn walk(b: &[u8]) -> Vec<(usize, usize, usize, usize)> {
     go(b, 0, 0, &mut out);
     out
 }
+
+//------------ tree view (for mutations that keep every enclosing length consistent) ---------
+
+#[derive(Clone, Debug)]
+pub struct Node {
+    pub tag: u8,
+    /// children when the value is constructed, or a primitive OCTET/BIT STRING that wraps DER
+    pub kids: Option<Vec<Node>>,
+    /// for a wrapping BIT STRING: the unused-bits octet kept in front of the children
+    pub lead: Vec<u8>,
+    pub content: Vec<u8>,
+}
+
+pub fn parse_nodes(b: &[u8]) -> Option<Vec<Node>> {
+    let mut out = Vec::new();
+    let mut off = 0;
+    while off < b.len() {
+        let (h, n) = split_tlv(&b[off..])?;
+        let tag = b[off];
+        let c = &b[off + h..off + h + n];
+        let mut node = Node { tag, kids: None, lead: vec![], content: c.to_vec() };
+        if tag & 0x20 != 0 {
+            node.kids = Some(parse_nodes(c)?);
+        } else if tag == 0x04 && n >= 2 && matches!(c[0], 0x30 | 0x31 | 0x03 | 0x02 | 0x06) {
+            // an OCTET STRING that wraps DER (extension values, eContent)
+            if let Some(k) = parse_nodes(c) { if !k.is_empty() { node.kids = Some(k); } }
+        } else if tag == 0x03 && n >= 3 && c[0] == 0 && c[1] == 0x30 {
+            if let Some(k) = parse_nodes(&c[1..]) { node.kids = Some(k); node.lead = vec![0]; }
+        }
+        out.push(node);
+        off += h + n;
+    }
+    Some(out)
+}
+
+pub fn encode_nodes(nodes: &[Node]) -> Vec<u8> {
+    let mut out = Vec::new();
+    for n in nodes {
+        let c = match &n.kids {
+            Some(k) => { let mut v = n.lead.clone(); v.extend(encode_nodes(k)); v }
+            None => n.content.clone(),
+        };
+        out.extend(tlv(n.tag, &c));
+    }
+    out
+}
+
+/// number of nodes in the forest
+pub fn count_nodes(nodes: &[Node]) -> usize {
+    nodes.iter().map(|n| 1 + n.kids.as_ref().map(|k| count_nodes(k)).unwrap_or(0)).sum()
+}
+
+/// applies `f` to the `idx`-th node in pre-order together with its sibling list position
+pub fn with_node<F: FnOnce(&mut Vec<Node>, usize)>(nodes: &mut Vec<Node>, idx: &mut usize, f: &mut Option<F>) {
+    let mut i = 0;
+    while i < nodes.len() {
+        if *idx == 0 {
+            if let Some(g) = f.take() { g(nodes, i); }
+            return;
+        }
+        *idx -= 1;
+        if let Some(k) = nodes[i].kids.as_mut() {
+            with_node(k, idx, f);
+            if f.is_none() { return }
+        }
+        i += 1;
+    }
+}
